@@ -45,7 +45,7 @@ func (s *syncBuf) String() string {
 
 func startWorker() (*worker, error) {
 	cmd := exec.Command(os.Args[0])
-	cmd.Env = append(os.Environ(), "VH_DECODE_WORKER=1", "NO_COLOR=1", "GOTRACEBACK=all")
+	cmd.Env = append(os.Environ(), "VH_DECODE_WORKER=1", "NO_COLOR=1", "GOTRACEBACK=all", "VH_DECODE_TMP="+tmpBase)
 	in, err := cmd.StdinPipe()
 	if err != nil {
 		return nil, err
@@ -82,6 +82,10 @@ func (w *worker) kill() {
 	}
 	_ = w.cmd.Wait()
 }
+
+// tmpBase holds the scratch directories of the workers; a worker that dies cannot
+// remove its own, so the parent removes the whole base at the end.
+var tmpBase string
 
 type pool struct {
 	w        *worker
